@@ -23,4 +23,7 @@ def kernprofOptions : List OptSpec := [
 /-- argparse's `allow_abbrev` of every parser kernprof creates (`True` is argparse's default) -/
 def kernprofAllowAbbrev : Bool := false
 
+/-- some parser kernprof creates reads arguments from files (`fromfile_prefix_chars`): program arguments starting with that character would be expanded -/
+def kernprofFromfilePrefix : Bool := false
+
 end LPVerif.Generated
